@@ -33,6 +33,7 @@ import XdslModel.DeclFormat
 import XdslModel.PDL
 import XdslModel.RiscVValidate
 import XdslModel.IRWF
+import XdslModel.Skeleton
 /-!
 Model registry for the driver: `MODEL <name>` selects a `(state, lineStep)` pair.
 A continuation-passing encoding is used because the state types differ.
@@ -78,6 +79,7 @@ def run? (name : String) : Option Runner :=
   | "pdl" => some fun k => k PDL.lineStep {}
   | "riscv_validate" => some fun k => k RiscV.TV.lineStep ()
   | "ir_wf" => some fun k => k IRWF.lineStep {}
+  | "skeleton" => some fun k => k Skeleton.lineStep ()
   | _ => none
 
 end Xdsl.Registry
